@@ -252,7 +252,7 @@ func relRef(from, to string) string {
 	return strings.Join(parts, "/")
 }
 
-var BundleTargets = []string{"localDef", "remoteDef", "remoteChain", "remoteRecursive", "selfRecursive", "mutualRecursive", "arrayOfSelf", "mapOfSelf",
+var BundleTargets = []string{"localDef", "remoteDef", "remoteChain", "remoteRecursive", "remoteCrossFileCycle", "remoteSiblingCircular", "selfRecursive", "mutualRecursive", "arrayOfSelf", "mapOfSelf",
 	"anonProperty", "anonItems", "anonAllOf", "anonAdditionalProperties", "anonSharedParam", "anonSharedResponse"}
 
 // Target creates the target of the given kind and returns the $ref string (as seen from the root) denoting it.
@@ -291,6 +291,23 @@ func (b *Bundle) Target(kind, name string) string {
 		b.AuxDef(f, o, jx.Obj{"type": "object", "description": b.lbl("ro"), "properties": jx.Obj{"back": jx.Obj{"$ref": "#/definitions/" + jx.EscTok(a)}}})
 		b.Tag("cycle")
 		return f + "#/definitions/" + jx.EscTok(a)
+	case "remoteCrossFileCycle":
+		// a cycle through two auxiliary documents, the same definition being reached under two spellings:
+		// from the root as sub/a.json#/..., from the sibling document as ../a.json#/...
+		x, y := nm("CrossX"), b.lbl("CrossY")
+		b.AuxDef("sub/a.json", x, jx.Obj{"type": "object", "description": b.lbl("cx"), "properties": jx.Obj{"y": jx.Obj{"$ref": "deep/b.json#/definitions/" + jx.EscTok(y)}}})
+		b.AuxDef("sub/deep/b.json", y, jx.Obj{"type": "object", "description": b.lbl("cy"), "properties": jx.Obj{"x": jx.Obj{"$ref": "../a.json#/definitions/" + jx.EscTok(x)}}})
+		b.Tag("cycle")
+		return "sub/a.json#/definitions/" + jx.EscTok(x)
+	case "remoteSiblingCircular":
+		// a self-recursive definition of sub/a.json, reached from the root as sub/a.json#/... and from its sibling sub/s.json as a.json#/...
+		x, sname := nm("SibX"), b.lbl("SibS")
+		b.AuxDef("sub/a.json", x, jx.Obj{"type": "object", "description": b.lbl("sx"), "properties": jx.Obj{"again": jx.Obj{"$ref": "#/definitions/" + jx.EscTok(x)}, "v": jx.Obj{"type": "string"}}})
+		b.AuxDef("sub/s.json", sname, jx.Obj{"type": "object", "description": b.lbl("ss"), "properties": jx.Obj{"x": jx.Obj{"$ref": "a.json#/definitions/" + jx.EscTok(x)}}})
+		b.Tag("cycle")
+		op := b.Op(b.newPath(), "get", true)
+		jx.AsObj(op["responses"])["200"] = jx.Obj{"description": b.lbl("sib"), "schema": jx.Obj{"$ref": "sub/s.json#/definitions/" + jx.EscTok(sname)}}
+		return "sub/a.json#/definitions/" + jx.EscTok(x)
 	case "selfRecursive":
 		n := nm("SelfRec")
 		b.Tag("cycle")
